@@ -6,10 +6,15 @@ Readings (where the property's words leave a choice, the one under which the rep
   `get_time_units_from_note_array` picks), then by `pitch`; rows equal in both are unordered
   (the first numpy sort is not stable) and are canonicalised before comparing.
 * "quarter and beat values equal the part's time maps", "optional columns equal what the score
-  states at the onset": the columns are compared with the part's OWN maps (`beat_map`,
+  states at the onset": the oracle compares the columns with the part's OWN maps (`beat_map`,
   `quarter_map`, `key_signature_map`, `time_signature_map`, `metrical_position_map`) evaluated at
-  the note's onset (and offset for durations).  Whether those maps are right is C02 / C10.  When a
+  the note's onset (and offset for durations), and - for descriptions whose reading is not in
+  question (everything starts at 0, measures tile the part) - with a Fraction recomputation from the
+  description (`Described`).  The Lean model composes the C02 / C10 models of those maps.  When a
   map itself raises on a generated part, the option that needs it is not exercised on that part.
+* `collapse=True` (docstring: "collapses consecutive rests on the same voice to a single rest of their
+  combined duration"): on parts whose rests do not overlap within a voice, the rows of a voice are the
+  maximal runs of rests adjacent in divisions.
 * float32 columns: |stored - map value| <= 2^-20 * max(1, |map value|).
 * "missing voices or staves": the documented replacement (largest voice in the table + 1; staff 0).
 * a list of parts in which a part has several quarter durations is refused by the code with an
@@ -36,32 +41,52 @@ PROPERTY = "C05"
 DRIVER = "drv_c05"
 PROPS = ["PartituraModel.Props.C05", "PartituraModel.Props.C05Compose", "PartituraModel.Props.C05Collapse"]
 TRUSTED = [
-    "the part's maps (beat_map, quarter_map, key/time signature maps, metrical_position_map) are inputs of the model: "
-    "their values at the onsets/offsets are read from the real part and handed to the model (C02/C10 verify the maps)",
+    "the timeline reads that describe a part to the model (property C01): len(part._points), first/last point, "
+    "_quarter_times/_quarter_durations, iter_all(TimeSignature | KeySignature | Measure) with their start/end times, "
+    "_use_musical_beat; the VALUES of the maps are not handed over any more: the model computes them with "
+    "Model/TimeMap.lean (C02) and Model/StepMap.lean (C10); key_mode_to_int(None) = major (C12 table)",
     "numpy structured arrays, np.argsort(kind='mergesort') stable, default argsort = some permutation sorted by key, "
-    "np.lexsort, np.hstack, np.lcm.reduce, rfn.merge_arrays",
-    "float32 storage of the four time columns (model exact; compared within 2^-20 relative); the sort key is the "
-    "float32 value of onset_beat, handed to the model as such",
+    "np.lexsort, np.hstack, np.lcm.reduce, rfn.merge_arrays; iterating a structured array yields views of its rows",
+    "float32: the model rounds exact rationals with f32round (round to nearest even, 24 bits; compared with numpy.float32 "
+    "on generated values, request `f32`); the binary64 evaluation inside scipy's interpolators is not modelled: the four "
+    "time columns are compared within 2^-20 relative, and the sort key f32(exact beat) is assumed to order the rows like "
+    "f32(binary64 beat) (a difference would need an onset within 2^-52 of a float32 rounding boundary)",
     "Fraction.limit_denominator (modelled and compared on every generated value), Python round/int on binary64",
     "estimate_spelling / estimate_voices keep the pitch (C17) and add_measures / tie_notes keep the tied duration "
-    "(C11) inside note_array_to_score(sanitize=True): compared on every generated array, not modelled",
+    "(C11) inside note_array_to_score(sanitize=True): hypothesis of from_to_array_sanitized; on every generated array "
+    "the oracle compares the sanitized part with the unsanitized one and reads the tie chains off the timeline",
+    "isinstance dispatch of Python: the harness tells the model the kind of the argument (Part, PartGroup, Score, list, "
+    "structured / plain ndarray, other); PerformedPart / Performance arguments belong to other properties",
 ]
 PARTIAL = [
-    "collapse=True rest arrays: compared with the model only on parts whose divisions are powers of two "
-    "(float32 equality of onset+duration is then exact); the oracle only checks that a collapsed row's div, beat and "
-    "quarter durations agree through the part's maps (which rests merge is not defined by the property); no theorem",
-    "from_to_array: the model's created part has no measures/ties; the sanitize=True path is compared, not proved",
+    "collapse=True: collapse_float_totals_partial is for exact float columns; with float32 columns the merged beat / "
+    "quarter durations are float32 sums (compared within 2^-20; the division totals and which rests merge are proved for "
+    "every rounding: collapse_total, collapse_merges_adjacent); totals are per VOICE (the code ignores the staff); "
+    "the hypotheses CleanTable (rows ordered by onset_div, positive durations, no overlap within a voice) are checked by "
+    "the oracle on each generated part, overlapping rests are compared with the model only",
+    "from_to_array: the model's created part has no measures/ties; the sanitize=True path enters as the hypothesis of "
+    "from_to_array_sanitized (C11's statement) and is compared",
+    "row_values_composed: a time outside the part's extent (NaN in a float column) makes the model refuse (`none`) where "
+    "the code stores NaN; generated notes lie inside the part; musical beats only with the default table "
+    "(use_musical_beat() without arguments)",
+    "the metrical columns of a score-level array are left in the divisions of their own part by the code (only onset_div, "
+    "duration_div and divs_pq are rescaled); model and oracle follow the code",
 ]
 RULE = ("generated parts (explicit measures, optional pickup, time/key signature changes, optional division change, "
-        "tie chains across bars, grace notes, chords, rests, unpitched notes, voice=None, staff=None) and scores of 1-4 "
-        "parts (divisions drawn so that their lcm usually exceeds each, empty parts, nested groups) x sampled and "
-        "exhaustive include_* combinations x unique_id_per_part x entry point; rest arrays with every option; random "
-        "note arrays (beat / div / both columns, optional time-signature columns, negative first onsets, malformed) for "
-        "the inverse.  distinct = distinct request text; non-trivial = at least one row compared")
+        "tie chains across bars, grace notes, chords, rests, unpitched notes, voice=None, staff=None, optionally switched to "
+        "musical beats) and scores of 1-4 parts (divisions drawn so that their lcm usually exceeds each, empty parts, nested "
+        "PartGroups of depth <= 3) x sampled and exhaustive include_* combinations x unique_id_per_part x every entry point "
+        "(Part/PartGroup/Score.note_array, note_array_from_part(_list), ensure_notearray on part / group / score / list / "
+        "arrays / other objects; the same for rest arrays incl. collapse on every division value); random note arrays "
+        "(beat / div / both columns, optional time-signature columns, negative first onsets, malformed, sanitize on/off, "
+        "notes crossing barlines) for the inverse.  distinct = distinct request text; non-trivial = at least one row compared")
 LEVEL_TEXT = ("Lean 4 theorems over an executable model of the table construction (tie chains, voice/staff replacement, "
-              "two-pass sort, lcm rescaling, id prefixing, inverse construction), unbounded over all note lists; the model is "
-              "tied to the code by running both on the same generated parts/scores/arrays and comparing every cell, and an "
-              "independent Fraction/plain-Python oracle rebuilds the table from the timeline.")
+              "two-pass sort, lcm rescaling, id prefixing, rest collapsing, entry-point dispatch, inverse construction), "
+              "unbounded over all note lists, composed with the C02 / C10 models of the part's maps (row_values_composed: "
+              "every time / signature / metrical column IS that model's value at the onset or offset, float32 only in the "
+              "sort key); the model is tied to the code by running both on the same generated parts/scores/arrays - the "
+              "model is fed the part description, not map values - and comparing every cell, and an independent "
+              "Fraction/plain-Python oracle rebuilds the table from the timeline and from the description.")
 
 FLOATCOLS = ("onset_beat", "duration_beat", "onset_quarter", "duration_quarter")
 RTOL = 2.0 ** -20
